@@ -137,6 +137,9 @@ def neighbours(d, T, v):
                     cands.append((base * (n // max(1, len(base)) + 1))[:n])
                 elif k in ('OCTETSTRING', 'BITSTRING') or k in ir.CHAR_KINDS:
                     cands.append(cons.value_of_size(d, k, cand[1]))
+                    if k == 'BITSTRING' and isinstance(x, tuple) and x[1] < (1 << cand[1]):
+                        # the same bits with more / fewer leading zeros: another BIT STRING that is numerically the same
+                        cands.append((cand[1], x[1]))
             elif isinstance(cand, tuple) and cand and cand[0] == 'chars':
                 if k in ir.CHAR_KINDS:
                     cands.append((x or '') + d.pick('zZ9#'))
